@@ -129,6 +129,13 @@ class _LogMixin(TracepointLogger):
         _rec(self.name, 'log', {'msg': log_msg, 'tp_id': tp_id, 'ctx_id': ctx_id})
 
 
+class _LogMixinOwnNames(TracepointLogger):
+    """A logger written against the positional contract, with parameter names of its own."""
+
+    def log_tracepoint(self, message, tracepoint, context):
+        _rec(self.name, 'log', {'msg': message, 'tp_id': tracepoint, 'ctx_id': context})
+
+
 class _MetMixin(MetricProcessor):
     def counter(self, name, labels, namespace, help_string, unit, value):
         KEPT_LABELS.append((labels, dict(labels)))
@@ -174,7 +181,7 @@ class Utf8StreamLogger(TracepointLogger):
             raise
 
 
-_KINDS = {'res': _ResMixin, 'dec': _DecMixin, 'log': _LogMixin, 'met': _MetMixin, 'span': _SpanMixin}
+_KINDS = {'res': _ResMixin, 'dec': _DecMixin, 'log': _LogMixin, 'logp': _LogMixinOwnNames, 'met': _MetMixin, 'span': _SpanMixin}
 
 
 def make(name, kinds, order=0, attrs=None, fail_ctor=False, falsy=None, display_name=None, deregister=False):
